@@ -346,4 +346,35 @@ def hashUri (h : State → Nat) (u : Uri) : Option Nat :=
   | .pyrometa _ => none
   | _ => some (h (getstate u))
 
+/-! ### the proxy state path (client.py:128-150, 353)
+    A proxy's only uri-related state is `_pyroUri`; `__getstate__()[0]` is `str(self._pyroUri)` computed at
+    the time of the call, `__setstate__` does `core.URI(state[0])`; serializers and `copy.copy` both go
+    through this pair; binding assigns the resolved uri to `_pyroUri`. -/
+
+inductive ProxyOp where
+  | send                 -- through a serializer: `__getstate__` at the sender, `__setstate__` at the receiver
+  | copy                 -- `copy.copy(proxy)`: the same state path, the copy is what is delivered
+  | setUri (u : Uri)     -- `self._pyroUri = uri` (what `_pyroBind` does with the resolved uri)
+
+/-- `Proxy.__getstate__()[0]` -/
+def proxyStateText (u : Uri) (order : List Text) : Text := render u order
+
+/-- `Proxy.__setstate__`: `self._pyroUri = core.URI(state[0])` -/
+def proxyFromState (g : Guards) (nsPort : Nat) (t : Text) : Except Err Uri := parse g nsPort t
+
+/-- run a history on a proxy whose uri is `u`; one entry per send/copy: the uri of the delivered proxy.
+    `orderOf` = the order in which the tag set of a uri is iterated when it is printed. -/
+def proxyRun (g : Guards) (nsPort : Nat) (orderOf : Uri → List Text) : Uri → List ProxyOp → List (Except Err Uri)
+  | _, [] => []
+  | u, .send :: r => proxyFromState g nsPort (proxyStateText u (orderOf u)) :: proxyRun g nsPort orderOf u r
+  | u, .copy :: r => proxyFromState g nsPort (proxyStateText u (orderOf u)) :: proxyRun g nsPort orderOf u r
+  | _, .setUri v :: r => proxyRun g nsPort orderOf v r
+
+/-- what must be delivered: the uri that is current at each send/copy -/
+def proxyExpect : Uri → List ProxyOp → List Uri
+  | _, [] => []
+  | u, .send :: r => u :: proxyExpect u r
+  | u, .copy :: r => u :: proxyExpect u r
+  | _, .setUri v :: r => proxyExpect v r
+
 end Pyro.Uri
